@@ -31,8 +31,7 @@ theorem maxProofLen_eq_width : maxProofLen = width := by decide
 /-! ### keys -/
 
 /-- a 32-byte key -/
-def Key32 := { k : Bytes // k.length = keyBytes }
-instance : DecidableEq Key32 := fun a b => decidable_of_iff (a.val = b.val) Subtype.ext_iff.symm
+abbrev Key32 := { k : Bytes // k.length = keyBytes }
 
 /-- bit `i` from the MSB -/
 def bit32 (k : Key32) (i : Nat) : Bool := bitOf k.val i
@@ -72,8 +71,7 @@ theorem keyExt_bytes : KeyExt bit32 width := by
 /-! ### hashes -/
 
 /-- a 32-byte hash value -/
-def Hash32 := { h : Bytes // h.length = keyBytes }
-instance : DecidableEq Hash32 := fun a b => decidable_of_iff (a.val = b.val) Subtype.ext_iff.symm
+abbrev Hash32 := { h : Bytes // h.length = keyBytes }
 
 /-- the assumptions on the hash function: 32-byte output, no collision among the 65-byte tagged
 inputs, never the zero sum -/
